@@ -173,8 +173,12 @@ def run(ctx):
                     elif pickle.dumps(ts["C"], 2) != pickle.dumps(ts["Py"], 2):
                         bad = ("pickle" if not any(cc[0] == "iand" for cc in calls[:i + 1]) else "pickle-after-iand",)
                 if bad:
+                    try:
+                        sizes_now = "C holds %d, Python holds %d entries: %r" % (len(ts["C"]), len(ts["Py"]), [repr(x)[:30] for x in list(ts["C"])[:4]])
+                    except Exception:  # noqa
+                        sizes_now = "?"
                     ctx.oracle_failure("C-vs-Py:%s:%s" % (kind, ":".join(str(x) for x in bad[:2])),
-                                       "%s%s sizes=%s call #%d %r: C and Python differ: %r" % (fn, kind, (ml, mi), i, c, bad),
+                                       "%s%s sizes=%s call #%d %r (%s): C and Python differ: %r" % (fn, kind, (ml, mi), i, c, sizes_now, bad),
                                        {"family": fn, "kind": kind, "mode": mode, "sizes": [ml, mi], "calls": calls[:i + 1], "difference": repr(bad)})
                     break
         ctx.count((fn, kind, repr(calls)), nontrivial=had_bad)
